@@ -12,4 +12,11 @@ for k in sorted(r):
     caught = ["%s (%s)" % (p, x["sig"].rstrip(":")) for p, x in sorted(v["results"].items()) if x["caught"]]
     missed = [p for p, x in sorted(v["results"].items()) if not x["caught"]]
     tp = v.get("tests_pass")
+    if tp is None and k.startswith("seeded-"):
+        # sub-agent changes: the existing test suite was run by selftest/verify_seed.py, recorded in meta.json
+        try:
+            meta = json.load(open(os.path.join(d, "..", "seeded", k[len("seeded-"):], "meta.json")))
+            tp = any(x["cmd"] == "test suite with the change" and x["rc"] == 0 and "PASSED" in x["tail"] for x in meta["ran"]) or None
+        except Exception:
+            pass
     print("| %s | %s | %s | %s | %s |" % (k, (v.get("what") or "").replace("|", "/")[:160], "pass" if tp else ("n/c" if tp is None else "FAIL"), ", ".join(caught) or "-", ", ".join(missed) or "-"))
